@@ -315,7 +315,7 @@ def judge_case(case, meta):
             viol("C36:search-incomplete", "candidates %r were never asked although every reply was negative (asked %d)" % ([x[:40] for x in rest], len(wire)))
     first_valid = W.text_to_labels(cands[0]) is not None
     if ret == "0":
-        st("requests_refused")
+        st("resolve_returned_null")
         if wire:
             viol("C36:refused-but-sent", "resolve returned NULL but %d queries were sent" % len(wire))
         if all(W.text_to_labels(c) is not None for c in cands[:1]) and meta["ntag"] not in ("empty",):
@@ -323,7 +323,7 @@ def judge_case(case, meta):
         else:
             st("unencodable_refused")
     elif ret == "1":
-        st("requests_started")
+        st("resolve_accepted")
         if ncb != 1:
             viol("C36:no-single-callback", "%d callbacks" % ncb)
         if not first_valid and not wire:
@@ -394,7 +394,7 @@ def run(tier, seed, total=None, nfiles=16):
             G.attach_case_text(res, texts)
     return vlib.finish(res, tier, seed, RULE,
                        required=["names_checked", "search_sequences_checked", "opt_records_checked", "case_randomized_names", "tcp_queries",
-                                 "udp_queries", "requests_refused", "queries_well_formed"],
+                                 "udp_queries", "resolve_returned_null", "queries_well_formed"],
                        assumptions=["name/search/option space sampled from a grammar", "CALIBRATED choices (API search order LIFO, >= ndots, "
                                     "edns-udp-size clipping, literal backslashes) are marked in lib/checks/C36.py"])
 
